@@ -48,6 +48,10 @@ type Spec struct {
 	Tasks   [][]Op       `json:"tasks"`
 	Sched   simrt.Sched  `json:"sched"`
 	Faults  simrt.Faults `json:"faults"`
+	// Flood, when non-zero, asks the reverse-order reference process to push
+	// that many distinct texts per spelling scheme through the library before
+	// it evaluates anything (see Flood).
+	Flood int `json:"flood,omitempty"`
 }
 
 type PoolObs struct {
